@@ -229,7 +229,15 @@ class StdoutProxy:
         else:
             # Make sure `write_and_flush` is executed *in* the event loop, not
             # in another thread.
-            loop.call_soon_threadsafe(write_and_flush_in_loop)
+            try:
+                loop.call_soon_threadsafe(write_and_flush_in_loop)
+            except RuntimeError:
+                # The event loop was closed after we looked it up: the
+                # application terminated in the meantime. Don't lose the text
+                # (and don't let the flush thread die): look again for a
+                # running application, and write directly if there is none.
+                new_loop = self._get_app_loop()
+                self._write_and_flush(None if new_loop is loop else new_loop, text)
 
     def _write(self, data: str) -> None:
         """
